@@ -2,6 +2,7 @@ package an
 
 import (
 	"fmt"
+	"go/constant"
 	"go/token"
 	"go/types"
 	"strings"
@@ -82,6 +83,34 @@ func hasRealUse(v ssa.Value) bool {
 
 // CheckDecoder applies the A7 rules to fn.
 func CheckDecoder(p *Prog, fn *ssa.Function) ([]DecIssue, DecStats) {
+	return checkDecoder(p, fn, false)
+}
+
+// CheckDecoderWithHelpers also treats the integer results of decode helpers - repository functions that take the
+// byte source (or an io.Reader) as an argument and return an integer first, like utils.DecodeVarUint - as integers
+// decoded from the input (for the size clause only).
+func CheckDecoderWithHelpers(p *Prog, fn *ssa.Function) ([]DecIssue, DecStats) {
+	return checkDecoder(p, fn, true)
+}
+
+// isDecodeHelper: a repository function with a byte-source parameter whose first result is an integer.
+func isDecodeHelper(p *Prog, callee *ssa.Function) bool {
+	if callee == nil || !p.InRepo(callee) || callee.Signature.Results().Len() == 0 {
+		return false
+	}
+	if b, ok := callee.Signature.Results().At(0).Type().Underlying().(*types.Basic); !ok || b.Info()&types.IsInteger == 0 {
+		return false
+	}
+	for i := 0; i < callee.Signature.Params().Len(); i++ {
+		ts := callee.Signature.Params().At(i).Type().String()
+		if strings.HasSuffix(ts, "common.ZeroCopySource") || ts == "io.Reader" {
+			return true
+		}
+	}
+	return false
+}
+
+func checkDecoder(p *Prog, fn *ssa.Function, helpers bool) ([]DecIssue, DecStats) {
 	var issues []DecIssue
 	var st DecStats
 	type read struct {
@@ -100,6 +129,23 @@ func CheckDecoder(p *Prog, fn *ssa.Function) ([]DecIssue, DecStats) {
 		}
 	}
 	st.Reads = len(reads)
+	var helperReads []*ssa.Call
+	helperWraps := map[*ssa.Call]bool{}
+	if helpers {
+		for _, k := range Calls(fn) {
+			if c, ok := k.(*ssa.Call); ok && !isSourceRead(c.Call.StaticCallee()) && isDecodeHelper(p, c.Call.StaticCallee()) {
+				bounded, wraps := helperResult(p, c.Call.StaticCallee())
+				if bounded {
+					continue // the helper itself bounds what it returns
+				}
+				helperReads = append(helperReads, c)
+				if wraps {
+					helperWraps[c] = true
+				}
+			}
+		}
+		st.Reads += len(helperReads)
+	}
 	ord := map[string]int{}
 	for _, r := range reads {
 		sig := r.callee.Signature
@@ -156,49 +202,17 @@ func CheckDecoder(p *Prog, fn *ssa.Function) ([]DecIssue, DecStats) {
 			derived[r.call] = r.call
 		}
 	}
-	changed := true
-	for changed {
-		changed = false
-		for _, b := range fn.Blocks {
-			for _, in := range b.Instrs {
-				v, ok := in.(ssa.Value)
-				if !ok || derived[v] != nil {
-					continue
-				}
-				switch x := in.(type) {
-				case *ssa.Convert:
-					if o := derived[x.X]; o != nil {
-						derived[v] = o
-						changed = true
-					}
-				case *ssa.ChangeType:
-					if o := derived[x.X]; o != nil {
-						derived[v] = o
-						changed = true
-					}
-				case *ssa.BinOp:
-					switch x.Op {
-					case token.ADD, token.SUB, token.MUL, token.SHL:
-						if o := derived[x.X]; o != nil {
-							derived[v] = o
-							changed = true
-						} else if o := derived[x.Y]; o != nil {
-							derived[v] = o
-							changed = true
-						}
-					}
-				case *ssa.Phi:
-					for _, e := range x.Edges {
-						if o := derived[e]; o != nil {
-							derived[v] = o
-							changed = true
-							break
-						}
-					}
-				}
+	for _, c := range helperReads {
+		if _, isTuple := c.Type().(*types.Tuple); isTuple {
+			for _, e := range Extracts(c)[0] {
+				derived[e] = e
 			}
+		} else {
+			derived[c] = c
 		}
 	}
+	propagateDerived(fn, derived)
+	wrap := wrappedValues(fn, derived, helperWraps)
 	sizeOrd := 0
 	for _, b := range fn.Blocks {
 		for _, in := range b.Instrs {
@@ -228,7 +242,7 @@ func CheckDecoder(p *Prog, fn *ssa.Function) ([]DecIssue, DecStats) {
 						Detail: "an integer decoded from the input bounds a slice expression on " + AccessPath(sl.X) + " without a dominating comparison against the length/capacity of that slice (a constant limit does not help when fewer elements were appended): out-of-range panic"})
 					continue
 				}
-				if comparedBefore(fn, u, derived, in) {
+				if comparedBefore(fn, u, derived, wrap, in) {
 					continue
 				}
 				issues = append(issues, DecIssue{Rule: "unbounded-size", Key: fmt.Sprintf("%s|%s#%d", FuncName(fn), strings.ReplaceAll(what, " ", "-"), sizeOrd), Pos: in.Pos(),
@@ -251,8 +265,9 @@ func recvOf2(c *ssa.CallCommon) ssa.Value {
 
 // comparedBefore: some value derived from the same input integer takes part
 // in an ordering/equality comparison whose branch dominates the use.
-func comparedBefore(fn *ssa.Function, u ssa.Value, derived map[ssa.Value]ssa.Value, use ssa.Instruction) bool {
+func comparedBefore(fn *ssa.Function, u ssa.Value, derived map[ssa.Value]ssa.Value, wrap map[ssa.Value]bool, use ssa.Instruction) bool {
 	origin := derived[u]
+	any, beforeWrap, upper, lower := false, false, false, false
 	for _, b := range fn.Blocks {
 		iff, ok := b.Instrs[len(b.Instrs)-1].(*ssa.If)
 		if !ok {
@@ -265,10 +280,181 @@ func comparedBefore(fn *ssa.Function, u ssa.Value, derived map[ssa.Value]ssa.Val
 			continue
 		}
 		if b.Dominates(use.Block()) {
-			return true
+			any = true
+			for _, cmp := range comparisonsOn(iff.Cond, origin, derived, 0) {
+				x, other := cmp.X, cmp.Y
+				if derived[x] != origin {
+					x, other = cmp.Y, cmp.X
+				}
+				if !wrap[x] {
+					beforeWrap = true
+					continue
+				}
+				if k, isK := other.(*ssa.Const); isK && k.Value != nil && constant.Sign(k.Value) <= 0 {
+					lower = true
+				} else {
+					upper = true
+				}
+			}
 		}
 	}
-	return false
+	if !any {
+		return false
+	}
+	// a signed value obtained by converting an unsigned one of the same width can be negative: an upper bound on it
+	// is not a bound (make/slice/index with a negative size panics); it needs a test before the conversion, or a
+	// lower bound as well
+	if wrap[u] {
+		return beforeWrap || (upper && lower)
+	}
+	return true
+}
+
+// comparisonsOn lists the comparisons inside cond that mention a value derived from origin.
+func comparisonsOn(c ssa.Value, origin ssa.Value, derived map[ssa.Value]ssa.Value, depth int) []*ssa.BinOp {
+	if depth > 5 {
+		return nil
+	}
+	switch x := c.(type) {
+	case *ssa.BinOp:
+		switch x.Op {
+		case token.LSS, token.LEQ, token.GTR, token.GEQ, token.EQL, token.NEQ:
+			if derived[x.X] == origin && derived[x.X] != nil || derived[x.Y] == origin && derived[x.Y] != nil {
+				return []*ssa.BinOp{x}
+			}
+			return nil
+		}
+		return append(comparisonsOn(x.X, origin, derived, depth+1), comparisonsOn(x.Y, origin, derived, depth+1)...)
+	case *ssa.UnOp:
+		return comparisonsOn(x.X, origin, derived, depth+1)
+	case *ssa.Phi:
+		var out []*ssa.BinOp
+		for _, e := range x.Edges {
+			out = append(out, comparisonsOn(e, origin, derived, depth+1)...)
+		}
+		return out
+	}
+	return nil
+}
+
+func intInfo(t types.Type) (signed bool, size int, ok bool) {
+	b, isB := t.Underlying().(*types.Basic)
+	if !isB || b.Info()&types.IsInteger == 0 {
+		return false, 0, false
+	}
+	switch b.Kind() {
+	case types.Int8, types.Uint8:
+		size = 8
+	case types.Int16, types.Uint16:
+		size = 16
+	case types.Int32, types.Uint32:
+		size = 32
+	default:
+		size = 64
+	}
+	return b.Info()&types.IsUnsigned == 0, size, true
+}
+
+// wrappedValues: the input-derived values that are signed results of converting an unsigned value of at least
+// their width (uint64 -> int), or are computed from such a value: they may be negative whatever upper bound holds.
+func wrappedValues(fn *ssa.Function, derived map[ssa.Value]ssa.Value, helperWraps map[*ssa.Call]bool) map[ssa.Value]bool {
+	wrap := map[ssa.Value]bool{}
+	for c := range helperWraps {
+		wrap[c] = true
+		if _, isTuple := c.Type().(*types.Tuple); isTuple {
+			for _, e := range Extracts(c)[0] {
+				wrap[e] = true
+			}
+		}
+	}
+	for changed := true; changed; {
+		changed = false
+		for _, b := range fn.Blocks {
+			for _, in := range b.Instrs {
+				v, ok := in.(ssa.Value)
+				if !ok || derived[v] == nil || wrap[v] {
+					continue
+				}
+				sgn, size, isInt := intInfo(v.Type())
+				if !isInt || !sgn {
+					continue
+				}
+				w := false
+				switch x := in.(type) {
+				case *ssa.Convert:
+					xs, xsize, xok := intInfo(x.X.Type())
+					w = xok && (!xs && xsize >= size || wrap[x.X])
+				case *ssa.ChangeType:
+					w = wrap[x.X]
+				case *ssa.BinOp:
+					w = wrap[x.X] || wrap[x.Y]
+				case *ssa.Phi:
+					for _, e := range x.Edges {
+						w = w || wrap[e]
+					}
+				}
+				if w {
+					wrap[v] = true
+					changed = true
+				}
+			}
+		}
+	}
+	return wrap
+}
+
+// helperResult summarises a decode helper: bounded - every integer it returns first is a constant, not derived from
+// a source read, or bounded inside the helper (sign-aware); wraps - some returned value may be negative after a
+// sign-changing conversion.
+func helperResult(p *Prog, h *ssa.Function) (bounded, wraps bool) {
+	if h == nil || h.Blocks == nil {
+		return false, false
+	}
+	derived := map[ssa.Value]ssa.Value{}
+	for _, k := range Calls(h) {
+		c, ok := k.(*ssa.Call)
+		if !ok {
+			continue
+		}
+		callee := c.Call.StaticCallee()
+		if !(isSourceRead(callee) || isDecodeHelper(p, callee)) || callee.Signature.Results().Len() == 0 {
+			continue
+		}
+		if _, _, isInt := intInfo(callee.Signature.Results().At(0).Type()); !isInt {
+			continue
+		}
+		if _, isTuple := c.Type().(*types.Tuple); isTuple {
+			for _, e := range Extracts(c)[0] {
+				derived[e] = e
+			}
+		} else {
+			derived[c] = c
+		}
+	}
+	propagateDerived(h, derived)
+	wrap := wrappedValues(h, derived, nil)
+	bounded = true
+	for _, r := range Returns(h) {
+		if len(r.Results) == 0 {
+			continue
+		}
+		v := r.Results[0]
+		if _, isK := v.(*ssa.Const); isK {
+			continue
+		}
+		if derived[v] == nil {
+			// computed in a way this analysis does not follow (e.g. through big.Int): not known to be bounded
+			bounded = false
+			continue
+		}
+		if wrap[v] {
+			wraps = true
+		}
+		if !comparedBefore(h, v, derived, wrap, r) {
+			bounded = false
+		}
+	}
+	return bounded, wraps
 }
 
 func condMentions(c ssa.Value, origin ssa.Value, derived map[ssa.Value]ssa.Value, depth int) bool {
@@ -482,3 +668,50 @@ func rereadAfterBackUp(c *ssa.Call) bool {
 
 // RereadOK exports rereadAfterBackUp.
 func RereadOK(c *ssa.Call) bool { return rereadAfterBackUp(c) }
+
+// propagateDerived closes the set of input-derived values under conversion, arithmetic and merging.
+func propagateDerived(fn *ssa.Function, derived map[ssa.Value]ssa.Value) {
+	changed := true
+	for changed {
+		changed = false
+		for _, b := range fn.Blocks {
+			for _, in := range b.Instrs {
+				v, ok := in.(ssa.Value)
+				if !ok || derived[v] != nil {
+					continue
+				}
+				switch x := in.(type) {
+				case *ssa.Convert:
+					if o := derived[x.X]; o != nil {
+						derived[v] = o
+						changed = true
+					}
+				case *ssa.ChangeType:
+					if o := derived[x.X]; o != nil {
+						derived[v] = o
+						changed = true
+					}
+				case *ssa.BinOp:
+					switch x.Op {
+					case token.ADD, token.SUB, token.MUL, token.SHL:
+						if o := derived[x.X]; o != nil {
+							derived[v] = o
+							changed = true
+						} else if o := derived[x.Y]; o != nil {
+							derived[v] = o
+							changed = true
+						}
+					}
+				case *ssa.Phi:
+					for _, e := range x.Edges {
+						if o := derived[e]; o != nil {
+							derived[v] = o
+							changed = true
+							break
+						}
+					}
+				}
+			}
+		}
+	}
+}
